@@ -25,7 +25,7 @@ theorem acc_additive {F : Nat} (xs ys : List (List α)) (hx : ∀ v ∈ xs, v.le
     (hy : ∀ v ∈ ys, v.length = F) :
     statsOf F (xs ++ ys) = statsOf F xs + statsOf F ys := by
   simp only [statsOf, Stats.add_def, List.map_append, List.length_append, Nat.cast_add, add_zero]
-  exact Stats.ext' (colSum_append _ _ hx hy) rfl
+  exact Stats.ext_fields (colSum_append _ _ hx hy) rfl
     (colSum_append _ _ (map_vsq_length hx) (map_vsq_length hy)) rfl
 
 /-- `xs ~ ys → stats xs = stats ys`: the order of the feature vectors is irrelevant. -/
@@ -60,7 +60,7 @@ theorem accCall_eq {F : Nat} (hF : F ≠ 0) (st : Option (Stats α))
     congr 1
     simp only [Stats.add_def, statsOf, Call.vectors, List.map_cons, List.map_nil, List.length_singleton,
       Nat.cast_one, add_zero]
-    refine Stats.ext' ?_ rfl ?_ rfl
+    refine Stats.ext_fields ?_ rfl ?_ rfl
     · show vadd _ v = vadd _ (colSum F [v]); rw [colSum_singleton hv]
     · show vadd _ (vsq v) = vadd _ (colSum F [vsq v]); rw [colSum_singleton (by simpa using hv)]
   | tens F' vs =>
@@ -88,7 +88,7 @@ theorem run_some {F : Nat} (hF : F ≠ 0) (cs : List (Call α)) (hcs : ∀ c ∈
       exact (hcs' c' hc').2.2 v hv'
     simp only [run, accCall_eq hF (some s) (fun s' h => by cases h; exact hd) c hc, Option.getD_some]
     rw [ih hcs' _ (Stats.add_dim _ _ hd (statsOf_dim hc.2.2)) (Stats.add_wf _ _ hw (statsOf_wf hc.2.2)),
-      List.flatMap_cons, acc_additive _ _ hc.2.2 hflat, Stats.add_assoc']
+      List.flatMap_cons, acc_additive _ _ hc.2.2 hflat, Stats.add_assoc_stats]
 
 /-- **Closed form of any history.**  Starting from a fresh object, any non-empty sequence of accepted
 `accumulate` calls — vectors, tensors along any axis, in any mix — leaves exactly `statsOf` of the
@@ -471,6 +471,94 @@ theorem accumulate_tensor_eq (st : Option (Stats α)) (t : Tensor α) (axis : In
   simp [accumulate, hg, hrank, hv]
 
 end api
+
+section apiFormula
+variable {α : Type} [Field α] [DecidableEq α]
+
+/-- a successful `apply` on an n-D array went through view → `applyTens` → `unview` -/
+theorem apply_tensor_inv (sqrt : α → α) (cz : α → Bool) (nv : Bool) (st : Option (Stats α))
+    (t : Tensor α) (axis : Int) (ip : Bool) (o : ApplyOut α) (hrank : t.shape.length > 1)
+    (h : apply sqrt cz nv st t axis ip = .ok o) :
+    ∃ w ys d, t.view axis = .ok w ∧
+      applyTens sqrt cz nv st (singleVector t.shape axis) w.F w.vecs = .ok ys ∧
+      unview w.A w.F w.B ys = some d ∧ o.data = d := by
+  cases hg : emptyGuard t with
+  | error e => simp [apply, hg] at h
+  | ok u =>
+    cases hw : t.view axis with
+    | error e => simp [apply, hg, hrank, hw] at h
+    | ok w =>
+      cases hys : applyTens sqrt cz nv st (singleVector t.shape axis) w.F w.vecs with
+      | error e => simp [apply, hg, hrank, hw, hys] at h
+      | ok ys =>
+        cases hd : unview w.A w.F w.B ys with
+        | none => simp [apply, hg, hrank, hw, hys, hd] at h
+        | some d =>
+          simp only [apply, hg, hrank, hw, hys, hd, if_true, Except.ok.injEq] at h
+          exact ⟨w, ys, d, rfl, hys, hd, by rw [← h]⟩
+
+/-- **apply on an n-D array, any rank, any axis, element by element.**  With `shape = pre ++ [F] ++ post`,
+`A = prod pre`, `B = prod post`, the output element at flat (row-major) index `(a*F + i)*B + b` — i.e. at
+multi-index `(pre-index a, i, post-index b)`, see `ravel_split` — is
+`(x − μ_i)·scale_i` of the input element at the same index. -/
+theorem apply_tensor_formula (sqrt : α → α) (cz : α → Bool) (nv : Bool) (s : Stats α) (hc : s.cnt ≠ 0)
+    (t : Tensor α) (axis : Int) (ip : Bool) (o : ApplyOut α) (hrank : t.shape.length > 1)
+    (h : apply sqrt cz nv (some s) t axis ip = .ok o) :
+    ∃ w, t.view axis = .ok w ∧ s.dim = w.F ∧
+      ∀ a i b, a < w.A → i < w.F → b < w.B → ∀ x si qi,
+        t.data[(a * w.F + i) * w.B + b]? = some x → s.sum[i]? = some si → s.sq[i]? = some qi →
+        o.data[(a * w.F + i) * w.B + b]? =
+          some ((x - si / s.cnt) * specScale sqrt cz nv s.cnt si qi) := by
+  obtain ⟨w, ys, d, hw, hys, hd, hod⟩ := apply_tensor_inv sqrt cz nv (some s) t axis ip o hrank h
+  subst hod
+  have hdim : s.dim = w.F := by
+    by_contra hne
+    rw [dim_mismatch_apply_tensor sqrt cz nv s _ w.F w.vecs (fun e => hne e.symm)] at hys
+    cases hys
+  refine ⟨w, hw, hdim, ?_⟩
+  intro a i b ha hi hb x si qi hx hsi hqi
+  obtain ⟨_, _, _, _, _, _, hvecs⟩ := view_spec hw
+  obtain ⟨_, hlen, hspec⟩ := vectorsAlong_spec hvecs
+  obtain ⟨v, x', hv, hvi, hx'⟩ := hspec a b i ha hb hi
+  rw [hx] at hx'
+  cases hx'
+  obtain ⟨ys', hys', _, hmap⟩ :=
+    apply_tensor_eq_vectors sqrt cz nv s hc (singleVector t.shape axis) w.F hdim w.vecs hlen
+  rw [hys] at hys'
+  cases hys'
+  obtain ⟨y, hy, hyk⟩ := hmap _ v hv
+  have hvl : v.length = s.dim := by rw [hdim]; exact hlen v (List.mem_of_getElem? hv)
+  obtain ⟨y', hy', hyi⟩ := apply_formula sqrt cz nv s hc v hvl i x si qi hvi hsi hqi
+  rw [hy] at hy'
+  cases hy'
+  obtain ⟨v2, x2, hv2, hx2, hd2⟩ := unview_spec hd ha hi hb
+  rw [hyk] at hv2
+  cases hv2
+  rw [hyi] at hx2
+  cases hx2
+  exact hd2
+
+/-- accumulating an n-D array through the public entry point = accumulating its feature vectors along
+the axis one at a time as 1-D arrays (non-empty array: `w.F ≠ 0`, `w.vecs ≠ []`). -/
+theorem accumulate_tensor_as_vectors {R : Type} [CommSemiring R] (st : Option (Stats R)) (t : Tensor R)
+    (axis : Int) (hrank : t.shape.length > 1) (hg : emptyGuard t = .ok ()) (w : View R)
+    (hv : t.view axis = .ok w) (hF : w.F ≠ 0) (hne : w.vecs ≠ [])
+    (hst : ∀ s, st = some s → s.dim = w.F ∧ s.WF) :
+    (accumulate st t axis).map some = run st (w.vecs.map Call.vec) := by
+  obtain ⟨_, _, _, _, _, _, hvecs⟩ := view_spec hv
+  obtain ⟨_, hlen, _⟩ := vectorsAlong_spec hvecs
+  rw [← acc_tensor_eq_vectors hF st hst w.vecs hne hlen]
+  have hacc : accumulate st t axis = accTensor st w.F w.vecs := by
+    simp [accumulate, hg, hrank, hv]
+  have hemp : w.vecs.isEmpty = false := by
+    cases hw : w.vecs with
+    | nil => exact absurd hw hne
+    | cons _ _ => rfl
+  rw [hacc]
+  simp only [run, accCall, hF, hemp, Bool.false_eq_true, or_self, if_false]
+  cases accTensor st w.F w.vecs <;> rfl
+
+end apiFormula
 
 /-! ## hypotheses are satisfiable -/
 
